@@ -17,8 +17,9 @@ class Recorder:
     """program: dict event-index -> answer (int); default 0 (continue).  query=True makes the callbacks interrogate
     the handles they receive."""
 
-    def __init__(self, L, program=None, query=True, parse_mode=False, answer_fn=None):
+    def __init__(self, L, program=None, query=True, parse_mode=False, answer_fn=None, loop_start_hook=None):
         self.L = L
+        self.loop_start_hook = loop_start_hook      # called with the loop handle before it is queried (parse time)
         self.program = program or {}
         self.answer_fn = answer_fn
         self.query = query
@@ -96,6 +97,8 @@ class Recorder:
         if not handle:
             return None
         L = self.L
+        if kind == 'loop_start' and self.loop_start_hook is not None:
+            self.loop_start_hook(handle)
         rc, cat = L.loop_get_category(handle)
         if rc != CIF_OK:
             self.problems.append(('handle:%s:get_category:%d' % (kind, rc), 'cif_loop_get_category in %s -> %d' % (kind, rc)))
